@@ -531,7 +531,9 @@ impl StringGenerator {
                     // rle is always >= x + 1 but "x - 1" may overflow.
                     rle -= 1;
                     rle -= x;
-                    if self.options.use_cursor_forward && line[x].ch == ' ' && line[x].cur_state.bg_idx == 0 && !line[x].cur_state.is_blink {
+                    // a cursor-forward that reaches the right margin stops there instead of wrapping to the next row
+                    let reaches_margin = x + rle + 1 >= layer.get_width() as usize;
+                    if self.options.use_cursor_forward && !reaches_margin && line[x].ch == ' ' && line[x].cur_state.bg_idx == 0 && !line[x].cur_state.is_blink {
                         let fmt = &format!("\x1B[{}C", rle + 1);
                         let output = fmt.as_bytes();
                         if output.len() <= rle {
